@@ -147,12 +147,13 @@ func ruleFencedFlagPerChild(c *Ctx) {
 		if id == nil {
 			break
 		}
-		if id.Name == "fenced" {
+		// the fence flag is the only bool parameter
+		if b, isB := p.TypeOf(id).Underlying().(*types.Basic); isB && b.Kind() == types.Bool {
 			fencedObj, idx = p.ObjOf(id), i
 		}
 	}
 	if fencedObj == nil {
-		c.Check("C07.g", "anchor: fenced parameter", fn.Decl, false, "parameter `fenced` not found")
+		c.Check("C07.g", "anchor: fenced parameter", fn.Decl, false, "no bool parameter (the fence flag) found")
 		return
 	}
 	c.Check("C07.g", "inherited fence flag is never assigned", fn.Decl, p.Walk(fn).assignCount[fencedObj] == 0, "the parameter fenced is assigned inside the function: a fence of one child leaks into the evaluation of its siblings")
@@ -192,7 +193,7 @@ func (p *Prog) conjuncts(e ast.Expr) []string {
 			walk(b.Y)
 			return
 		}
-		out = append(out, types.ExprString(unparen(e)))
+		out = append(out, p.Src(unparen(e)))
 	}
 	walk(e)
 	sort.Strings(out)
@@ -216,7 +217,7 @@ func ruleTrackerRemovalAgreement(c *Ctx) {
 			if be, isAnd := unparen(as.Rhs[0]).(*ast.BinaryExpr); !isAnd || be.Op != token.LAND {
 				return true // the child's answer on the way back up the recursion
 			}
-			if id, ok := as.Lhs[0].(*ast.Ident); ok && id.Name == "removeQT" {
+			if _, ok := as.Lhs[0].(*ast.Ident); ok {
 				found = true
 				cj := p.conjuncts(as.Rhs[0])
 				got = append(got, cj)
